@@ -70,6 +70,9 @@ func sameVal(a, b ssa.Value) bool {
 	if a == b {
 		return true
 	}
+	if structEq(a, b, 0) {
+		return true
+	}
 	ca, oka := constUint(a)
 	cb, okb := constUint(b)
 	if oka && okb {
@@ -608,6 +611,48 @@ func decideArgs(p *Prog, s Site, aa, bb ssa.Value) bool {
 		if kb, ok := constUint(stripConv(bb)); ok {
 			return ka >= kb
 		}
+	}
+	return false
+}
+
+
+// structEq: structural equality of two SSA values that denote the same computation over identical leaves
+// (go/ssa performs no common-subexpression elimination, so `to+1` appears once per occurrence).
+func structEq(a, b ssa.Value, depth int) bool {
+	a, b = stripConv(a), stripConv(b)
+	if a == b {
+		return true
+	}
+	if depth > 5 {
+		return false
+	}
+	switch x := a.(type) {
+	case *ssa.Const:
+		y, ok := b.(*ssa.Const)
+		if !ok || x.Value == nil || y.Value == nil {
+			return false
+		}
+		return constant.Compare(x.Value, token.EQL, y.Value)
+	case *ssa.BinOp:
+		y, ok := b.(*ssa.BinOp)
+		return ok && x.Op == y.Op && structEq(x.X, y.X, depth+1) && structEq(x.Y, y.Y, depth+1)
+	case *ssa.UnOp:
+		y, ok := b.(*ssa.UnOp)
+		if !ok || x.Op != y.Op {
+			return false
+		}
+		if x.Op == token.MUL {
+			fx, ok1 := x.X.(*ssa.FieldAddr)
+			fy, ok2 := y.X.(*ssa.FieldAddr)
+			if ok1 && ok2 {
+				return fx.Field == fy.Field && structEq(fx.X, fy.X, depth+1)
+			}
+			return x.X == y.X
+		}
+		return structEq(x.X, y.X, depth+1)
+	case *ssa.Convert:
+		y, ok := b.(*ssa.Convert)
+		return ok && types.Identical(x.Type(), y.Type()) && structEq(x.X, y.X, depth+1)
 	}
 	return false
 }
